@@ -682,6 +682,23 @@ func canonLinearCmp(t *Term) *Term {
 		}
 		return &Term{Op: "bin", Name: op, V: t.V, Args: []*Term{sum, mkConst(k, r.V)}}
 	}
+	// unsigned (or mixed), no constant: a fixed operand order (a < b and b > a are one literal)
+	if _, lc := isConstInt(l); !lc {
+		if _, rc := isConstInt(r); !rc && l.String() > r.String() {
+			flip := map[string]string{"==": "==", "!=": "!=", "<": ">", "<=": ">=", ">": "<", ">=": "<="}[op]
+			l, r, op = r, l, flip
+		}
+	}
+	if _, isC := isConstInt(r); !isC {
+		// only < and >= (and ==, !=): a <= b is !(b < a) = b >= a … expressed with swapped operands
+		switch op {
+		case "<=":
+			l, r, op = r, l, ">="
+		case ">":
+			l, r, op = r, l, "<"
+		}
+		return &Term{Op: "bin", Name: op, V: t.V, Args: []*Term{l, r}}
+	}
 	// unsigned (or mixed): only operator normalisation against a constant
 	if k, isC := isConstInt(r); isC {
 		switch op {
